@@ -10,9 +10,9 @@ for pid in sorted(os.listdir(root)):
         if os.path.exists(os.path.join(d, "patch.diff")) and os.path.exists(os.path.join(d, "meta.json")):
             if not sel or ("%s/%s" % (pid, v)) in sel:
                 todo.append((pid, v, d))
-NEIGH = {"C01": ["C06", "C08", "C04", "C09"], "C02": ["C05"], "C03": ["C05"], "C04": ["C01", "C16"], "C05": ["C02", "C03", "C10", "C07"],
+NEIGH = {"C01": ["C06", "C08", "C04", "C09"], "C02": ["C05"], "C03": ["C05"], "C04": ["C01", "C16"], "C05": ["C02", "C03", "C10", "C07", "C01", "C06"],
          "C06": ["C01", "C07", "C15"], "C07": ["C06", "C09", "C15"], "C08": ["C01", "C10"], "C09": ["C08", "C07", "C10", "C18"],
-         "C10": ["C09", "C15", "C06"], "C11": [], "C12": ["C15", "C13"], "C13": ["C12", "C15"], "C14": ["C15"], "C15": ["C14", "C01", "C06"],
+         "C10": ["C09", "C15", "C06"], "C11": ["C10"], "C12": ["C15", "C13"], "C13": ["C12", "C15"], "C14": ["C15"], "C15": ["C14", "C01", "C06"],
          "C16": ["C04", "C17"], "C17": ["C16"], "C18": ["C09", "C10"], "C19": [], "C20": []}
 def run(t):
     pid, v, d = t
